@@ -66,6 +66,12 @@ def make_inputs(config, seed):
             if pos[1] == 1:
                 del Bf["fcst"][pos]
     B = gen.AInput("B", t, l, locs, Bf)
+    if config == "ensemble":
+        # three members in no particular order (each field is its own permutation), one member cell missing
+        for ai, miss in ((A, [(0, 1, 0)]), (B, [])):
+            ai.fields["e0"] = field(miss=miss)
+            ai.fields["e1"] = field()
+            ai.fields["e2"] = field()
     clim = None
     if config == "clim":
         clim = gen.AInput("K", t, l, locs, {"fcst": field(miss=[(0, 1, 0)]), "pit": field(), "p1": field(),
@@ -98,6 +104,14 @@ MENU8 = [MENU12[i] for i in (0, 1, 3, 4, 6, 7, 10, 11)]
 MENU_EMPTY = [ev(["obs", "fcst"], 0, "leadtime", 1), ev(["fcst"], 0, "leadtime", 1, single=True), ev(["fcst"], 0, "leadtime", 1), ev(["obs", "fcst"], 1, "leadtime", 1),
               ev(["obs", "fcst"], 0, "leadtime", 0), ev(["obs", "fcst"], 0, "all"), ev(["fcst"], 1, "leadtimeday", 1, single=True), (("M", "mae"), False, 0, "leadtime", None),
               (("M", "fcst"), False, 1, "leadtime", None)]
+
+
+# requests answered from the ensemble (a quantile level and a threshold the files do not store) between requests for the members
+E0, E1, E2 = ("e", 0), ("e", 1), ("e", 2)
+Q3, P2 = ("q", 0.3), ("p", 2.0)
+MENU_ENS = [ev([E0], 0, "all", single=True), ev([E1, E2], 0, "no", 0), ev([E2], 1, "all", single=True), ev(["obs", Q3], 0, "no", 0), ev([Q3], 1, "all", single=True),
+            ev(["obs", P2], 0, "no", 0), ev([P2, Q3], 1, "all"), ev(["obs", E0, "fcst"], 1, "location", 1), ev([Q5], 0, "all", single=True),
+            ev([("q", 0.9), E1], 0, "leadtime", 1)]
 
 
 def big_menu(small=False):
@@ -347,10 +361,10 @@ def plan(tier):
     if tier == "quick":
         return [("fix-plain", "plain", MENU12, None), ("fix-obsrange", "obsrange", MENU8, None),
                 ("fix-noobs", "noobs", MENU8, None), ("fix-clim", "clim", MENU8, None), ("fix-emptyslice", "emptyslice", MENU_EMPTY, None),
-                ("depth2-big", "plain", big_menu(small=True), 2)]
+                ("fix-ensemble", "ensemble", MENU_ENS, None), ("depth2-big", "plain", big_menu(small=True), 2)]
     return [("fix-plain", "plain", MENU16, None), ("fix-obsrange", "obsrange", MENU12, None),
             ("fix-noobs", "noobs", MENU12, None), ("fix-clim", "clim", MENU12, None), ("fix-emptyslice", "emptyslice", MENU_EMPTY + MENU8[:4], None),
-            ("depth2-big", "plain", big_menu(), 2), ("depth3-mid", "plain", big_menu(small=True), 3), ("depth2-big-clim", "clim", big_menu(), 2),
+            ("fix-ensemble", "ensemble", MENU_ENS, None), ("depth2-big", "plain", big_menu(), 2), ("depth3-mid", "plain", big_menu(small=True), 3), ("depth2-big-clim", "clim", big_menu(), 2),
             ("depth2-big-obsrange", "obsrange", big_menu(), 2)]
 
 
